@@ -3,7 +3,7 @@
 import json, glob, sys, re, base64
 pref = sys.argv[1]; n = int(sys.argv[2]) if len(sys.argv) > 2 else 1
 shown = 0
-for f in sorted(glob.glob('/verif/replays/*.json')):
+for f in sorted(glob.glob(__import__('os').environ.get('REPLAYS','/verif/replays')+'/*.json')):
     d = json.load(open(f)); k = d['key']
     if not k.startswith(pref): continue
     w = d['witness']; print('=======', k, f); print('WHAT', d['what'][:600])
